@@ -10,7 +10,7 @@ Definition xW (st : state) := map (fun c => want c + length (hand c)) (subs st).
 
 (* status read from a program counter: 0 not started, 1 in flight, 2 returned *)
 Definition st_emit (p : emit_pc) : nat := match p with E0 => 0 | EDone => 2 | _ => 1 end.
-Definition st_new (a : nat) : nat := match a with 0 => 0 | 4 => 2 | _ => 1 end.
+Definition st_new (a : nat) : nat := match a with 0 => 0 | 1 | 2 | 3 => 1 | _ => 2 end.
 Definition st_cl (c : cl_pc) : nat := match c with C0 => 0 | C5 => 2 | _ => 1 end.
 Definition st_sub (p : sub_pc) : nat := match p with S0 => 0 | SDone => 2 | _ => 1 end.
 Definition st_close (p : close_pc) : nat := match p with K0 => 0 | KDone => 2 | _ => 1 end.
